@@ -387,3 +387,145 @@ def mapping_lookup_origin(P, f, e, at):
     """True when e derives from `<mapping>.get(...)` / `<mapping>[...]` of a configuration-level mapping"""
     cl = f.rd.closure_nodes(e, at, follow_mut=False)
     return [x for x in cl if (isinstance(x, ast.Call) and call_attr(x) == 'get') or isinstance(x, ast.Subscript)]
+
+
+# --------------------------------------------------------------------------- objects shared by every thread of one application
+def _is_threadlocal_class(c):
+    return any((dotted(d.func) if isinstance(d, ast.Call) else dotted(d)) in ('ts_props',) or
+               (isinstance(d, ast.Call) and dotted(d.func) == 'ts_props') for d in getattr(c.node, 'decorator_list', []))
+
+
+def shared_classes(P, root='ombott.ombott:Ombott'):
+    """classes whose instances hang off the application object (built in __init__ of a shared class and kept in an attribute), without the
+    per-thread ones (@ts_props).  Returns (classes, {class fq: attributes that hold per-thread objects})"""
+    rootc = P.classes.get(root)
+    if rootc is None:
+        return [], {}
+    out, tl = [rootc], {}
+    i = 0
+    while i < len(out):
+        c = out[i]
+        i += 1
+        for k in P.mro(c):
+            init = k.methods.get('__init__')
+            if init is None:
+                continue
+            for st in walk_shallow(init.node):
+                if isinstance(st, ast.Assign) and isinstance(st.value, ast.Call):
+                    r = P.resolve_name(init.module, dotted(st.value.func) or '')
+                    if r and r[0] == 'class':
+                        for t in st.targets:
+                            ts = t.elts if isinstance(t, ast.Tuple) else [t]
+                            for t_ in ts:
+                                if isinstance(t_, ast.Attribute) and isinstance(t_.value, ast.Name) and t_.value.id == 'self':
+                                    if _is_threadlocal_class(r[1]) or any(_is_threadlocal_class(b) for b in P.mro(r[1])):
+                                        tl.setdefault(c.fq, set()).add(t_.attr)
+                                    elif r[1] not in out:
+                                        out.append(r[1])
+    return out, tl
+
+
+def request_path_funcs(P, entry='ombott.ombott:Ombott.wsgi', config_time=()):
+    """over-approximate call reachability by simple name from the WSGI entry point (every package function of that name is a callee)"""
+    by_name = {}
+    for f in P.all_funcs():
+        if isinstance(f.node, ast.Lambda):
+            continue
+        by_name.setdefault(f.name, []).append(f)
+    start = P.funcs.get(entry)
+    if start is None:
+        return []
+    seen, todo = {start.fq: start}, [start]
+    while todo:
+        f = todo.pop()
+        names = set()
+        for n in walk_shallow(f.node):
+            if isinstance(n, ast.Call):
+                nm = n.func.attr if isinstance(n.func, ast.Attribute) else (n.func.id if isinstance(n.func, ast.Name) else None)
+                if nm:
+                    names.add(nm)
+            elif isinstance(n, ast.Attribute) and isinstance(n.ctx, ast.Load):
+                names.add(n.attr)          # property getters
+            elif isinstance(n, ast.Subscript):
+                names.add('__getitem__')
+        for ch in P.all_funcs():
+            if ch.parent is f and ch.fq not in seen and not isinstance(ch.node, ast.Lambda):
+                seen[ch.fq] = ch
+                todo.append(ch)
+        for nm in names:
+            if nm in config_time:
+                continue
+            for g_ in by_name.get(nm, []):
+                if g_.fq not in seen:
+                    seen[g_.fq] = g_
+                    todo.append(g_)
+    return list(seen.values())
+
+
+def _alias_roots(f, e, at, depth=0):
+    """what `e` may denote, as access paths from self: {'self.router', 'self.root[]', ...}; locals are followed through plain copies, attribute
+    loads and element loads only (a value computed by a call is a new object)"""
+    if depth > 6:
+        return set()
+    if isinstance(e, ast.Attribute):
+        if isinstance(e.value, ast.Name) and e.value.id == 'self':
+            return {'self.' + e.attr}
+        return {r + '.' + e.attr for r in _alias_roots(f, e.value, at, depth + 1)}
+    if isinstance(e, ast.Subscript):
+        return {r + '[]' for r in _alias_roots(f, e.value, at, depth + 1)}
+    if isinstance(e, ast.Name):
+        if e.id == 'self':
+            return {'self'}
+        out = set()
+        if f.rd.is_local(e.id):
+            for d in f.rd.at(at, e.id):
+                if d.kind in ('assign', 'walrus', 'ann') and d.value is not None and isinstance(d.value, (ast.Name, ast.Attribute, ast.Subscript)) and d.node is not at:
+                    out |= _alias_roots(f, d.value, d.node, depth + 1)
+        return out
+    return set()
+
+
+def shared_object_writes(P, config_time=()):
+    """stores into the application object or an object reachable from it (router, routing tree, route tables) made by code that runs while a
+    request is served.  One application object serves all threads: such a store is visible to every request in flight."""
+    classes, tl = shared_classes(P)
+    cset = {c.fq for c in classes}
+    out = []
+    for f in request_path_funcs(P, config_time=config_time):
+        oc = f.owner_cls
+        if oc is None or oc.fq not in cset or f.name in config_time or f.name in ('__init__', '__new__'):
+            continue
+        skip = tl.get(oc.fq, set())
+        g = f.cfg
+
+        def hit(expr, at):
+            roots = _alias_roots(f, expr, at)
+            return sorted(r for r in roots if r == 'self' or (r.startswith('self.') and r.split('.')[1].split('[')[0] not in skip))
+        for n in walk_shallow(f.node):
+            ns = g.node_of_stmt(n)
+            if not ns:
+                continue
+            at = ns[0]
+            if isinstance(n, (ast.Assign, ast.AugAssign, ast.AnnAssign)):
+                targets = n.targets if isinstance(n, ast.Assign) else [n.target]
+                flat = []
+                for t in targets:
+                    flat += list(t.elts) if isinstance(t, (ast.Tuple, ast.List)) else [t]
+                for t in flat:
+                    if isinstance(t, ast.Attribute):
+                        for r in hit(t.value, at):
+                            out.append(dict(func=f, node=n, target=f'app-object:{oc.name}:{r}.{t.attr}', kind='attr-assign'))
+                    elif isinstance(t, ast.Subscript):
+                        for r in hit(t.value, at):
+                            if r != 'self':
+                                out.append(dict(func=f, node=n, target=f'app-object:{oc.name}:{r}[...]', kind='item-assign'))
+            elif isinstance(n, ast.Delete):
+                for t in n.targets:
+                    if isinstance(t, (ast.Subscript, ast.Attribute)):
+                        for r in hit(t.value, at):
+                            out.append(dict(func=f, node=n, target=f'app-object:{oc.name}:{r}', kind='del'))
+            elif isinstance(n, ast.Call) and isinstance(n.func, ast.Attribute) and n.func.attr in MUTATORS:
+                for r in hit(n.func.value, at):
+                    if r != 'self':
+                        out.append(dict(func=f, node=n, target=f'app-object:{oc.name}:{r}', kind=f'call:{n.func.attr}'))
+    return out
